@@ -138,6 +138,9 @@ structure Cfg where
   /-- `true` = the tree with the fix "an index entry whose key is the name of another cache file is
   invalid"; `false` = the tree as found.  Only `classify` looks at it. -/
   rejectReserved : Bool := true
+  /-- `true` = the tree with the fix "an index element of the wrong JSON type is an invalid entry,
+  not a decoding error"; `false` = the tree as found.  Only `decodeDoc` looks at it. -/
+  lenientDecode : Bool := true
 
 /-- `serviceblock.Filter.Refresh` after the text has been obtained: decode, convert. -/
 def svcResult (E : Env) (cfg : Cfg) (c : Nat) : SvcRes :=
@@ -246,7 +249,19 @@ structure RawEntry where
   urlParses : Bool
   /-- the URL -/
   url : Nat
+  /-- the element, or one of its two properties, has the wrong JSON type (a string, an array, a
+  number, `true` where an object is expected; a number where a string is expected).  The other
+  fields are what `encoding/json` leaves of it: the properties of the right type, the rest empty. -/
+  typeErr : Bool := false
 deriving Repr, DecidableEq
+
+/-- `json.Decoder.Decode` into `indexResp` for a document that is a JSON object whose `filters` is
+an array with the elements `es`.  On the tree as found one element of the wrong type makes `Decode`
+return an `*json.UnmarshalTypeError` and `loadIndex` refuse the whole document (`lenient = false`);
+with the fourth fix (`indexRespFilter.UnmarshalJSON` never fails) such an element is decoded to
+what is left of it and is then an invalid entry like any other. -/
+def decodeDoc (lenient : Bool) (es : List RawEntry) : Option (List RawEntry) :=
+  if !lenient && es.any (·.typeErr) then none else some es
 
 /-- `firstNonIDRune(s, true)` finds nothing at this byte: printable, non-blank ASCII other than a
 slash.  Every byte of a multi-byte rune is ≥ 0x80 and the rune itself is > '~', so the test on bytes
@@ -423,6 +438,58 @@ def refreshHash (E : Env) (max : Nat) (acceptStale : Bool) (s : HSt) (fresh : Bo
   | none => ({ s with disk := rr.2 }, false)
   | some c => if E.hashOk c then ({ mem := some c, disk := rr.2 }, true)
               else ({ s with disk := rr.2 }, false)
+
+/-! ## Safe-search filters: the whole of `Default.refresh`
+
+`Default.refresh` refreshes, after the rule lists and the blocked services and *before* the new
+rule-list map is swapped in, the general and the YouTube safe-search filter
+(`refreshSafeSearch`), each a `rulelist.Refreshable` with a cache file of its own
+(`cacheDir/general_safe_search`, `cacheDir/youtube_safe_search`).  An error of either returns
+before `resetRuleLists`. -/
+
+/-- `rulelist.Refreshable.Refresh`: the text is compiled whatever it holds. -/
+def refreshRL (E : Env) (max : Nat) (acceptStale : Bool) (s : HSt) (fresh : Bool) (r : Resp) :
+    HSt × Bool :=
+  let rr := refresh E max acceptStale s.disk fresh r
+  match rr.1 with
+  | none => ({ s with disk := rr.2 }, false)
+  | some c => ({ mem := some c, disk := rr.2 }, true)
+
+/-- The two safe-search filters. -/
+structure SSt where
+  gen : HSt
+  yt : HSt
+
+/-- The safe-search part of a round. -/
+structure SRound where
+  max : Nat
+  genOn : Bool
+  genFresh : Bool
+  genResp : Resp
+  ytOn : Bool
+  ytFresh : Bool
+  ytResp : Resp
+
+/-- `refreshSafeSearch`: the general filter first; the YouTube filter only when that succeeded. -/
+def ssPart (E : Env) (SR : SRound) (acceptStale : Bool) (ss : SSt) : SSt × Bool :=
+  let g := if SR.genOn then refreshRL E SR.max acceptStale ss.gen SR.genFresh SR.genResp
+           else (ss.gen, true)
+  if g.2 then
+    let y := if SR.ytOn then refreshRL E SR.max acceptStale ss.yt SR.ytFresh SR.ytResp
+             else (ss.yt, true)
+    ({ gen := g.1, yt := y.1 }, y.2)
+  else ({ ss with gen := g.1 }, false)
+
+/-- `Default.refresh` with the safe-search filters: `refreshStorage` is the part up to and
+including the services (with the swap it would do when there were no safe-search filters); when a
+safe-search refresh fails, the swap of the rule lists is taken back — it has not happened yet. -/
+def refreshFull (E : Env) (cfg : Cfg) (s : St) (ss : SSt) (R : Round) (SR : SRound) :
+    (St × SSt) × Bool :=
+  let r := refreshStorage E cfg s R
+  if r.2 then
+    let p := ssPart E SR R.acceptStale ss
+    if p.2 then ((r.1, p.1), true) else (({ r.1 with rl := s.rl }, p.1), false)
+  else ((r.1, ss), false)
 
 /-! ## File replacement in small steps (for kill points) -/
 
